@@ -58,20 +58,41 @@ theorem G_of_diags (nroot : Nat) (st st' : PState) (hg : G T nroot st)
   · rw [h]
   · rw [h]
 
-theorem G_langStack (nroot : Nat) (st : PState) (l : List (Str × Str)) (hg : G T nroot st) :
+theorem G_langStack (nroot : Nat) (st : PState) (l : List (Str × Str)) (hg : G T nroot st)
+    (hl : ∀ e ∈ l, (settingsOf T e.1).isSome = true) :
     G T nroot { st with langStack := l } :=
-  ⟨⟨hg.flows, hg.macros, hg.envs, hg.gloss⟩, hg.root, hg.inFrame⟩
+  ⟨⟨hg.flows, hg.macros, hg.envs, hg.gloss, hg.items, hl, hg.rots⟩, hg.root, hg.inFrame⟩
 
-theorem Good_changeParserLang (nroot : Nat) (st : PState) (l : Str) (back hard : Bool) (hg : G T nroot st) :
+/-- `check_parser_lang` always names existing settings (falls back to 'en') -/
+theorem settingsOf_checkLang (hw : T.WFInv) (l : Str) :
+    (settingsOf T (checkLang T l)).isSome = true := by
+  simp only [checkLang]
+  split
+  · next h =>
+    unfold settingsOf
+    rw [List.find?_isSome]
+    simpa using h
+  · exact hw.lang_en
+
+theorem Good_changeParserLang (hw : T.WFInv) (nroot : Nat) (st : PState) (l : Str) (back hard : Bool)
+    (hg : G T nroot st) :
     Good T nroot st (changeParserLang T st l back hard) := by
+  have htail : ∀ e ∈ st.langStack.tail, (settingsOf T e.1).isSome = true :=
+    fun e he => hg.langs e (List.mem_of_mem_tail he)
+  have hcons : ∀ (tl : List (Str × Str)), (∀ e ∈ tl, (settingsOf T e.1).isSome = true) →
+      ∀ e ∈ (checkLang T l, l) :: tl, (settingsOf T e.1).isSome = true := by
+    intro tl htl e he
+    rcases List.mem_cons.1 he with h | h
+    · rw [h]; exact settingsOf_checkLang T hw l
+    · exact htl e h
   unfold changeParserLang
   split
   · split
-    · exact ⟨G_langStack T nroot st _ hg, rfl, rfl⟩
+    · exact ⟨G_langStack T nroot st _ hg htail, rfl, rfl⟩
     · exact Good_refl T nroot st hg
   · split
-    · exact ⟨G_langStack T nroot st _ hg, rfl, rfl⟩
-    · exact ⟨G_langStack T nroot st _ hg, rfl, rfl⟩
+    · exact ⟨G_langStack T nroot st _ hg (hcons _ htail), rfl, rfl⟩
+    · exact ⟨G_langStack T nroot st _ hg (hcons _ hg.langs), rfl, rfl⟩
 
 theorem lookupEnv_mem (st : PState) (name : Str) (env : MacroDef) (h : lookupEnv st name = some env) :
     env ∈ st.envs :=
@@ -201,7 +222,7 @@ theorem br_dollars (IH : AllSpecs T nroot fuel) (st : PState) (hg : G T nroot st
         unfold envOk at hm
         simp at hequ
         simp [hequ] at hm
-        simpa using hm.1
+        simpa using hm.1.1
       exact br_display T IH st hg tok rest envStop out env.name env.remove ht hr ho hn
 
 theorem br_accent (IH : AllSpecs T nroot fuel) (st : PState) (hg : G T nroot st)
@@ -252,7 +273,13 @@ theorem br_special (IH : AllSpecs T nroot fuel) (st : PState) (hg : G T nroot st
             (out ++ [mkAction tok.pos, { kind := .text, pos := tok.pos, txt := v, fix := tok.fix }])) st)
       (SeqQ T nroot st envStop) := by
   cases hv : T.toTables.specialVal tok.txt with
-  | none => exact Post_crash _ _ _
+  | none =>
+    exfalso
+    have h := ht.1.2.2.2
+    unfold mbOk at h
+    simp only [hk] at h
+    rw [hv] at h
+    exact absurd h (by decide)
   | some v =>
     refine br_plain T IH st hg _ _ _ hr (OL_snoc2 T _ _ _ _ ho (OTok_mkAction T _ _ ht.1.1) ?_)
     apply OTok_text T _ tok v ht.1
@@ -287,7 +314,7 @@ theorem lang_outKind (tok : Tok) (hk : (match tok.kind with | .lang .. => true |
   unfold outKind
   cases hkk : tok.kind <;> simp only [hkk] at hk ⊢ <;> exact absurd hk (by decide)
 
-theorem br_lang (IH : AllSpecs T nroot fuel) (st : PState) (hg : G T nroot st)
+theorem br_lang (hw : T.WFInv) (IH : AllSpecs T nroot fuel) (st : PState) (hg : G T nroot st)
     (tok : Tok) (rest : Buf) (envStop : Option Str) (out : List Tok)
     (ht : BTok T st.latex.length tok) (hr : BL T st.latex.length rest) (ho : OL T st.latex.length out)
     (hk : (match tok.kind with | .lang .. => true | _ => false) = true) :
@@ -304,7 +331,7 @@ theorem br_lang (IH : AllSpecs T nroot fuel) (st : PState) (hg : G T nroot st)
     · next l back hard brk hkk =>
       refine Post_bind _ _ _ (fun _ s => Good T nroot st s) _ ?_ ?_
       · apply Post_modify
-        exact Good_changeParserLang T nroot st l back hard hg
+        exact Good_changeParserLang T hw nroot st l back hard hg
       · intro _ s g
         exact seq_cont T IH.seq g _ _ _ hr hot
     · exact br_plain T IH st hg _ _ _ hr hot
@@ -368,7 +395,7 @@ theorem seq_step (hw : T.WFInv) (nroot fuel : Nat) (IH : AllSpecs T nroot fuel) 
       br_plain T IH _ hg _ _ _ hr (OL_snoc T _ _ _ ho (OTok_mkAction T _ _ ht.1.1))) (fun _ => ?_)
     refine Post_ite _ _ _ _ _ (fun hk =>
       br_special T IH _ hg tok rest envStop out ht hr ho (by simpa using hk)) (fun h7 => ?_)
-    refine Post_ite _ _ _ _ _ (fun hk => br_lang T IH _ hg tok rest envStop out ht hr ho hk) (fun _ => ?_)
+    refine Post_ite _ _ _ _ _ (fun hk => br_lang T hw IH _ hg tok rest envStop out ht hr ho hk) (fun _ => ?_)
     have hok : outKind tok = true := outKind_of_not tok ht.2 h1 h2 h3 h4 h5 h6 h7 h8
     refine Post_ite _ _ _ _ _ (fun _ => br_active T IH _ hg tok rest envStop out ht hr ho hok) (fun _ => ?_)
     refine Post_ite _ _ _ _ _ (fun _ => br_plain T IH _ hg _ _ _ hr ho) (fun _ => ?_)
